@@ -417,6 +417,17 @@ theorem search_no_veto (fuel : Nat) (T : List (Option α)) (th : θ)
       simp [hm, this]
     · simp [e]
 
+/-- In MT~ mode the loop never consults the reset function. -/
+theorem search_tilde_ignores_veto (htilde : cfg.tilde = true) (fuel : Nat) (T : List (Option α)) (th : θ) :
+    search cfg M veto fuel T th = search cfg M (fun _ => false) fuel T th := by
+  induction fuel generalizing T th with
+  | zero => rfl
+  | succ fuel ih =>
+    rw [search_succ, search_succ]
+    cases nanargmax T with
+    | none => rfl
+    | some c => simp only [htilde, Bool.true_or, ih]
+
 end
 
 end Art
